@@ -168,6 +168,19 @@ class maverage_deque:
             got.append(r[1])
             if src.pulled != k + 1:
                 return "output %d after %d reads" % (k, src.pulled)
+        # two live streams from the same filter object, consumed alternately, do not disturb each other
+        filt = maverage.deque(size)
+        x2 = [v + 1 for v in x]
+        a, b = iter(filt(list(x), zero=zero)), iter(filt(list(x2), zero=zero))
+        ga, gb = [], []
+        for _ in range(len(x)):
+            ga.append(next(a)); gb.append(next(b))
+        exp2 = []
+        for n in range(len(x2)):
+            w = [x2[j] if j >= 0 else zero for j in range(n - size + 1, n + 1)]
+            exp2.append(sum(w) / size)
+        if any(abs(float(u) - float(v)) > 1e-9 for u, v in zip(ga, exp)) or any(abs(float(u) - float(v)) > 1e-9 for u, v in zip(gb, exp2)):
+            return "two streams from the same maverage.deque(%d) object consumed alternately: %r / %r, expected %r / %r" % (size, ga, gb, js(exp), js(exp2))
         # size_inv is a float (1./size): compare with a tolerance relative to the data, exact for dyadic sizes
         if len(got) != len(exp) or any(abs(float(a) - float(b)) > 1e-9 for a, b in zip(got, exp)):
             return "maverage.deque(%d) on %r zero=%s: got %r, property says %r" % (size, js(x), zero, got, js(exp))
